@@ -8,16 +8,22 @@ META = {
                   "invariant over all histories, lifted to what a close + reload shows; go/ast fact tie (encoding/gob on a struct "
                   "with pointer fields and no type tag); correspondence with the real gateway through forced closes (Swamp.Close, "
                   "graceful stop + restart, idle eviction) and re-summon"),
-    "text": ("Hv.C05.reload_view: for ANY facts and every history on a fresh persistent swamp (write interval > 0) the view after "
-             "close + reload is every record passed once through LoadFromByte∘ConvertToByte (invariant DOK: every record of the key "
-             "beacon is waiting for the writer); holds_typeTagged: with a type-tagged encoding that is the identity; "
-             "persistRecord_id_iff: with gob it is the identity exactly on values that are not zero-like (metadata always "
-             "survives); not_holds_gob / zero_table: closed witnesses (0 of each int width, ±0.0, false, \"\", empty bytes, empty "
-             "uint32 slice reload as 'no value'); C05_partial: histories without quirk tags and without zero-like values."),
-    "note": ("Trusted: Lean kernel (propext, Classical.choice, Quot.sound); extract/c05.go; harness/c05.go + c06.go. The lifted "
-             "theorem covers one session on a write-interval>0 swamp; the write-inside-Save path (interval 0), repeated "
-             "close/reopen and the file format itself (C01) are covered by the correspondence run only. encoding/gob's "
-             "zero omission is modelled (validated by the 28-value table case on both write paths), not verified."),
+    "text": ("Statement Hv.C05.Holds: for every persistent kind (write interval 0 and > 0) and every multi-session history (requests "
+             "interleaved with closes), one more close + reload shows the same view. Proved against it: not_holds_gob (a typed zero "
+             "reloads as 'no value'), not_holds_incfail (incFailClean = no: a failed conditional Increment on a reloaded record shows "
+             "metadata the next close loses), not_holds_resurrect (any facts: delete / re-create / delete of a filed key within a "
+             "session brings the old record back) — classify lists exactly the findings these cover. Proved for it, on the "
+             "single-session write-interval>0 fragment (single_of_holds: implied by Holds): reload_view (for ANY facts the view after "
+             "close + reload is every record passed once through LoadFromByte∘ConvertToByte; invariant DOK), single_typeTagged, "
+             "persistRecord_id_iff (gob is the identity exactly on values that are not zero-like; metadata always survives), "
+             "zero_table, C05_partial (histories without quirk tags and without zero-like values)."),
+    "note": ("Trusted: Lean kernel (propext, Classical.choice, Quot.sound); extract/c05.go; harness/c05.go + c06.go. The POSITIVE "
+             "direction is proved for one session on a write-interval>0 swamp only; over several sessions, on the write-inside-Save "
+             "path (interval 0), under the 1 s write ticker (kind p1t) and through CompactSwamp it is TESTED by the correspondence "
+             "run (classify never answers 'holds': the delete path of the model is not governed by an extracted fact yet). The file "
+             "format itself is C01. encoding/gob's zero omission is modelled (validated by the 28-value table case on both write "
+             "paths), not verified. Keys: the theorems are about keys the file format can hold (non-empty, < 64 KiB); for the others "
+             "the driver, not the Lean model, reproduces the loss (finding unstorable-key-acknowledged)."),
     "design_ref": "§8 C05",
 }
 
@@ -26,6 +32,9 @@ FINDINGS = {
                                     "writer runs — SaveFunction replaces the queued delete by the new treasure, deleteHandler then drops the "
                                     "unwritten treasure from the write buffer, nothing is written, and the originally persisted record is back "
                                     "after close + reload"),
+    "C05-unstorable-key-acknowledged": ("Set / Increment / Uint32SlicePush accept the empty key and keys of 65536 bytes and more and answer NEW; the "
+                                        "V2 writer refuses such entries (empty key; key length is a 16-bit field) and only logs it, so the record is "
+                                        "readable until the swamp closes and is gone after the reload (a 65535-byte key survives)"),
     "C05-zero-like-reloads-void": ("gob omits zero-valued fields: Int8..Uint64 0, Float32/64 ±0.0, false, \"\", empty bytes and an empty "
                                    "uint32 slice have their content type before a close and come back as void (no value) after it; "
                                    "metadata survives"),
@@ -47,13 +56,13 @@ def run(ctx):
         ctx.violation("harness does not build against the repository", {"correspondence": "C05", "log": getattr(ctx, "hx_log", "")[-2000:]},
                       tag="build", found_input=False)
     K.decide_standard(ctx, corrs, FINDINGS)
-    K.report_mismatch(ctx, KV.spec_violated_factory(known))
+    K.report_mismatch(ctx, KV.spec_violated_factory(known, ctx))
     c = corrs[0][2] if corrs else K.Corr()
-    checked, devs = (0, [])
-    if corrs and not c.err and not c.mismatch:
+    checked, devs, ostats = (0, [], {})
+    if corrs and not c.err:
         # the reference must explain every reply; only close lines attributed to a listed C05 finding,
         # and (C06 territory) request lines the model marks as deviating, are exempt
-        checked, devs = KV.run_oracle(ctx, c, "C05", known, exempt_model_marked=True)
+        checked, devs, ostats = KV.run_oracle(ctx, c, "C05", known, exempt_model_marked=True)
     if ctx.thorough:
         ok, out = K.leanchecker(ctx, ["Hv.Props.C05", "Hv.Data.Persist"])
         ctx.cov["leanchecker"] = "ok" if ok else out[-500:]
@@ -83,7 +92,7 @@ def run(ctx):
         extra_cov={"correspondence": {"domain": "C05", "cases": len(c.cases), "op_lines": len(c.ops),
                                       "mismatching_lines": len(c.mismatch), "op_histogram": c.op_hist,
                                       "closes": closes, "closes_that_changed_the_view": changed},
-                   "oracle": {"lines_checked": checked, "deviations": len(devs)}},
+                   "oracle": {"lines_evaluated": checked, "lines_not_enough_known": ostats.get("unknown", 0), "lines_total": ostats.get("lines", 0), "deviations": len(devs)}},
         trusted=["Lean 4.33.0 kernel", "axioms: propext, Classical.choice, Quot.sound", "extract/c05.go", "harness/c05.go, harness/c06.go",
                  "MODELLED (validated, not verified): encoding/gob zero omission"],
     )
